@@ -37,6 +37,10 @@ CRATE_ARGS = {
     # default feature simdutf8 = SIMD intrinsics; without it string_from_slice uses core::str::from_utf8
     "parquet-variant": ["--no-default-features"],
 }
+# native replay builds the crate's TEST target; arrow-avro's test modules need its default features (flate2, ...)
+REPLAY_CRATE_ARGS = {
+    "arrow-avro": [],
+}
 MEM_CAP_GB = float(os.environ.get("VERIF_MEM_GB", "12"))
 TOTAL_MEM_CAP_GB = float(os.environ.get("VERIF_TOTAL_MEM_GB", "48"))
 DEFAULT_TIMEOUT = {"quick": 300, "thorough": 2400}
@@ -239,7 +243,10 @@ def make_overlay(prop, hfs, replay_override=None):
         content += "\n".join(seen) + "\n"
         with open(dst, "w") as f:
             f.write(content)
-        os.utime(dst, ns=(st.st_atime_ns, st.st_mtime_ns))
+        if not replay_override:
+            os.utime(dst, ns=(st.st_atime_ns, st.st_mtime_ns))
+        # (replay overlays keep the fresh mtime: successive replays inject different files into the same target
+        # source, and with the source's mtime restored cargo would reuse the previous replay's build)
     return ov
 
 
@@ -521,7 +528,7 @@ def replay(prop, hfs, ob, res, ov_unused):
     info["replay_tests"] = sorted(seen)[:8]
     info["concrete_values"] = re.findall(r"//\s*(.+)\n\s*vec!\[([^\]]*)\]", test_src)[:40]
     ov = make_overlay(prop + "-replay", hfs, replay_override={ob.file: rfile})
-    args = ["cargo", "kani", "playback", "-Z", "concrete-playback", "-p", ob.crate, "--lib"] + CRATE_ARGS.get(ob.crate, []) + extra_args(ob) + ["--", tname or "kani_concrete_playback"]
+    args = ["cargo", "kani", "playback", "-Z", "concrete-playback", "-p", ob.crate, "--lib"] + REPLAY_CRATE_ARGS.get(ob.crate, CRATE_ARGS.get(ob.crate, [])) + extra_args(ob) + ["--", tname or "kani_concrete_playback"]
     env = kani_env()
     env["CARGO_TARGET_DIR"] = os.path.join(WORK, prop + "-replay", "t-playback")
     p = subprocess.run(args, cwd=ov, env=env, capture_output=True, text=True)
